@@ -24,7 +24,8 @@ inputs in their raw form so that its panics and errors are part of the model: th
 `end + 1` words (`u32` subtraction), `frame_count`, `flags`, `maxcll`, `maxfall`, and for HDR10+ the two summary
 arrays and, per frame, whether a peak value exists.
 
-Arithmetic is that of the dev profile (overflow checks on): a `u32` / `usize` subtraction that would wrap is `.panic`.
+Arithmetic is that of the dev profile (overflow checks on): a `u32` subtraction of the madVR reader that would wrap is
+`.panic` (the HDR10+ function uses `checked_sub` since /repo 3502e27: an `Err`).
 -/
 namespace Dovi.Gen
 open Dovi
@@ -147,20 +148,23 @@ deriving Repr
 def hdrFirstFrames (src : HdrSource) (f0 : Nat) : List Nat :=
   (List.range src.frames.length).filter fun n => (src.firsts.map (· - f0)).contains n
 
-/-- `parse_hdr10plus_for_l1`:
-* `.panic` when `SceneFirstFrameIndex` is empty (`.expect`), when one of its entries is below the first one
-  (`*i -= first_frame_index` on `usize`, dev profile), when a visited frame has no peak value (`.unwrap()`), or when more
-  frames are visited than `SceneFrameNumbers` has entries (index out of range);
+/-- `parse_hdr10plus_for_l1` (as repaired by /repo 3502e27 — every malformed summary is an `Err`, the function has no
+panic site left: `l1_avg_pq_cm_version.unwrap()` is `Some` since `execute` filled it in, `contains` / `get` / `checked_sub`
+do not panic):
+* `.error` when `SceneFirstFrameIndex` is empty ("missing SceneFirstFrameIndex array"), when one of its entries is below
+  the first one (`checked_sub`), when a visited frame has no peak value ("no peak brightness value for frame n"), or when
+  more frames are visited than `SceneFrameNumbers` has entries ("missing SceneFrameNumbers entry for scene k") — in the
+  Rust code the last two are interleaved per visited frame; they are of one class, so the order is not observable;
 * else one shot per visited frame: `start` = the frame number, `duration` = the `k`-th scene length, L1 from that frame,
-  merged with the config's shot `k`; `length = SceneInfo.len()`. There is no `.error` case. -/
+  merged with the config's shot `k`; `length = SceneInfo.len()`. There is no `.panic` case. -/
 def hdr10plusConfig (c : Config) (src : HdrSource) : Res Config :=
   match src.firsts with
-  | [] => .panic
+  | [] => .error
   | f0 :: _ =>
-    if src.firsts.any (· < f0) then .panic
+    if src.firsts.any (· < f0) then .error
     else
       let ns := hdrFirstFrames src f0
-      if ns.any (fun n => (src.frames.getD n none).isNone) || src.lengths.length < ns.length then .panic
+      if ns.any (fun n => (src.frames.getD n none).isNone) || src.lengths.length < ns.length then .error
       else
         let cm := c.l1AvgCmv40.getD c.cmv40
         .ok { c with
